@@ -131,6 +131,24 @@ class World:
         for f in self.both():
             f.rmtree(path)
 
+    # ------------------------------------------------------------ save / restore of the implementation tree
+    def save_impl(self):
+        if self.real:
+            import shutil
+            bak = posixpath.join(self.sandbox, 'saved')
+            shutil.rmtree(bak, ignore_errors=True)
+            shutil.copytree(self.root, bak, symlinks=True)
+            return bak
+        return {p: Node(n.kind, n.cid, n.mtime, n.ino, n.payload) for p, n in self.fs.nodes.items()}
+
+    def restore_impl(self, saved):
+        if self.real:
+            import shutil
+            shutil.rmtree(self.root)
+            shutil.copytree(saved, self.root, symlinks=True)
+            return
+        self.fs.nodes = {p: Node(n.kind, n.cid, n.mtime, n.ino, n.payload) for p, n in saved.items()}
+
     # ------------------------------------------------------------ observation
     def snap(self, fs, exclude_tmp=True):
         s = fs.snapshot(self.root, exclude=(self.cache,))
